@@ -97,6 +97,8 @@ ElabPart(part, base) ==
      lists |-> [exec |-> NameList(part, "exec"), query |-> NameList(part, "query"), sudo |-> NameList(part, "sudo")]]
 Elab(p) ==
     [id |-> p.id, family |-> p.family, overrides |-> SetToSeq(p.overrides),
+     \* a generic contract that is only defined: no entry points, nothing in the crate instantiates its messages with concrete types
+     generic |-> ("generic" \in DOMAIN p /\ p.generic), define_only |-> ("define_only" \in DOMAIN p /\ p.define_only),
      accepted |-> Accepted(p),
      collides |-> [exec |-> Collides(p, "exec"), query |-> Collides(p, "query"), sudo |-> Collides(p, "sudo")],
      ep_kinds |-> SetToSeq(EntryPointKinds(p)),
